@@ -534,6 +534,15 @@ def check_property(prop, tier, seed):
             else:
                 undecided.append('kani: harness %s: status %s: %s' % (h, hr['status'], hr['raw_tail'][-300:]))
 
+    # ---- recorded (unrepaired) findings whose witness is a native replay: still failing => KNOWN-FINDING line, exit code unaffected ----
+    for kf in known.get('findings', []):
+        if kf.get('property') == prop and kf.get('kind') == 'replay':
+            rc_k, out_k = native_replay(kf['replay'][0], kf['replay'][1], timeout=300)
+            if rc_k == 1 or rc_k == 124:
+                known_hits.append('%s [witness: ddo-replay %s %s]' % (kf['what_fails'], kf['replay'][0], ' '.join(kf['replay'][1])))
+            elif rc_k != 0:
+                undecided.append('known-finding witness %s could not run: %s' % (kf['replay'][0], out_k[-300:]))
+
     # ---- regression replays of the repaired genuine defects (concrete witnesses, run natively on the real code) ----
     regr_ev = []
     for (case, args, what) in REGRESSION_REPLAYS.get(prop, []):
